@@ -77,6 +77,17 @@ CHECKS.update({
         "design_ref": "DESIGN.md section 8, C13", "note": STORE_NOTE,
         "technique": "Coq proof (live-bytes invariant of the merge loop) + differential correspondence on file sizes",
     },
+    "C14": {
+        "text": "Run-time verification with a monitor proved sound in Coq: the mutating file-system calls of the real store are "
+                "recorded (LD_PRELOAD), compared call by call with the model's trace, and fed to the Coq monitor whose acceptance "
+                "is proved to imply: exclusive creation with ids above every id ever present, writes only appending to the file "
+                "this process created last (or its hint) and only while it is within the size bound, nothing written to inherited "
+                "files; truncate/rename/pwrite/open-for-write/writable mmap are reported by the recorder and rejected. That every "
+                "model trace is accepted is evaluated per run, not yet proved (partial).",
+        "design_ref": "DESIGN.md section 8, C14",
+        "note": STORE_NOTE + " The recorder sees libc calls only. Absence of truncate/rename in all executions is monitored, not proved.",
+        "technique": "Coq-proved trace monitor evaluated on recorded real traces + trace correspondence with the model",
+    },
     "C19": {
         "text": "Machine-checked proof that in every reachable crash-free state each file's live/dead/dead-bytes counters equal "
                 "ground truth computed from the files and the index, that a counter row exists exactly for files holding "
